@@ -373,7 +373,13 @@ func (o OneOfSchema[KeyType]) findUnderlyingType(data any) (KeyType, Object, err
 
 	var foundKey *KeyType
 	if reflectedType.Kind() == reflect.Map {
-		myKey, mySchemaObj, err := o.validateMap(data.(map[string]any))
+		dataMap, ok := data.(map[string]any)
+		if !ok {
+			return nilKey, nil, &ConstraintError{
+				Message: fmt.Sprintf("Invalid type for one-of type: '%T'; expected map[string]any", data),
+			}
+		}
+		myKey, mySchemaObj, err := o.validateMap(dataMap)
 		if err != nil {
 			return nilKey, nil, err
 		}
